@@ -496,70 +496,31 @@ func checkC04(c *ev.Ctx) {
 				return
 			}
 		}
-		out, cerr, rerr, pn := openRead("xz", mod, 0)
-		c.Eval(id, true)
-		c.Count("mod:"+classOf(name), 1)
-		det := map[string]any{"case_id": id, "seed": s.ID, "seed_features": s.Feat, "modification": name, "arg": j.arg, "block": j.bi,
-			"original_hex": ev.Hex(s.B, 1600), "modified_hex": ev.Hex(mod, 1600), "ctor_error": fmt.Sprint(cerr), "read_error": fmt.Sprint(rerr), "delivered": len(out), "content_len": len(s.Content)}
-		if pn != nil {
-			det["what"] = "reader panicked on a damaged stream: " + pn.Value
-			c.Violation("panic-on-damaged", det)
-			return
-		}
-		clean := cerr == nil && rerr == nil
-		if j.kind == "sealflip" {
-			// The flipped field is consistent with its CRC32 again, so only a cross-check against
-			// the rest of the stream can object.  If the strict reference still accepts the file
-			// with the same content the flip produced another valid file (e.g. a larger declared
-			// dictionary) and nothing is demanded; otherwise the metadata is inconsistent.
-			// (Integers in a longer than the shortest encoding are not among the inconsistencies the
-			// statement lists - the values stay the same - so the judge tolerates them.)
-			if ro, _, e := ref.DecodeXZLenient(mod, 0); e == nil && bytes.Equal(ro, s.Content) {
-				c.Count("sealflip_yields_valid_file", 1)
-				return
+		// the same modified stream is read under several schedules of buffer lengths: like
+		// io.ReadAll, one byte at a time, and with buffers that end exactly at the block ends
+		scheds := []struct {
+			name string
+			l    []int
+		}{{"readall", nil}, {"one-byte", []int{1}}}
+		if j.kind == "edit" || j.kind == "sealflip" {
+			var ex []int
+			for _, bl := range s.S.Blocks {
+				if bl.UncLen > 0 {
+					ex = append(ex, bl.UncLen)
+				}
 			}
-			if clean {
-				det["what"] = fmt.Sprintf("%s: bit %d of byte %d flipped and the covering CRC32 re-sealed; the reference rejects the file, the reader reports a clean end after %d bytes (content %d bytes, equal=%v)", name, j.arg%8, j.arg/8, len(out), len(s.Content), bytes.Equal(out, s.Content))
-				c.Violation("edit-accepted:"+name, det)
-			} else {
-				c.Count("sealflips_rejected", 1)
-			}
-			return
+			scheds = append(scheds, struct {
+				name string
+				l    []int
+			}{"block-exact", append(ex, 1<<16)})
 		}
-		if j.kind == "edit" {
-			if clean {
-				det["what"] = fmt.Sprintf("metadata edit %q (block %d), CRC32s re-sealed, is not reported: clean end after %d bytes (content %d bytes, equal=%v)", name, j.bi, len(out), len(s.Content), bytes.Equal(out, s.Content))
-				c.Violation("edit-accepted:"+edits[j.arg].Name, det)
-			} else {
-				c.Count("edits_rejected", 1)
+		for si, sc := range scheds {
+			if c04Judge(c, s, j.kind, j.arg, j.bi, id, name, mod, sc.name, sc.l, si == 0, edits) {
+				break
 			}
-			return
-		}
-		if clean && !bytes.Equal(out, s.Content) && s.Multi {
-			// a multi-stream file from which whole streams (or whole 4-byte padding groups)
-			// were removed is itself a valid file: no format without a global check can
-			// notice that.  Exempt exactly when the strict reference accepts the file too.
-			if ro, _, rerr := ref.DecodeXZ(mod, 0); rerr == nil && bytes.Equal(ro, out) {
-				c.Count("multistream_modification_yields_valid_file", 1)
-				return
-			}
-		}
-		if clean && !bytes.Equal(out, s.Content) {
-			det["what"] = fmt.Sprintf("%s at %d: stream with check %d decodes cleanly to %d bytes differing from the original %d bytes (first difference %d)", j.kind, j.arg, s.Check, len(out), len(s.Content), firstDiff(out, s.Content))
-			c.Violation("damaged-decodes-differently:"+j.kind, det)
-			return
-		}
-		if clean {
-			c.Count("damage_harmless_same_content", 1)
-			c.Count(fmt.Sprintf("harmless:%s:%s", j.kind, regionOf(s, j.kind, j.arg)), 1)
-			if os.Getenv("C04_DEBUG") != "" && j.kind == "flip" {
-				fmt.Printf("HARMLESS %s bit %d byte %d region %s\n", s.ID, j.arg, j.arg/8, regionOf(s, j.kind, j.arg))
-			}
-		} else {
-			c.Count("damage_detected", 1)
 		}
 		if i%9973 == 0 {
-			c.Sample(map[string]any{"seed": s.ID, "modification": name, "arg": j.arg, "ctor_error": fmt.Sprint(cerr), "read_error": fmt.Sprint(rerr)})
+			c.Sample(map[string]any{"seed": s.ID, "modification": name, "arg": j.arg, "read_schedules": len(scheds)})
 		}
 	})
 }
@@ -567,7 +528,7 @@ func checkC04(c *ev.Ctx) {
 // sealRegion is a byte range [from,to) of a seed protected by the CRC32 stored at crcAt over
 // [crcFrom,crcTo).
 type sealRegion struct {
-	name                          string
+	name                            string
 	from, to, crcAt, crcFrom, crcTo int
 }
 
@@ -598,6 +559,88 @@ func sealRegions(s *xzSeed) []sealRegion {
 	f := st.FooterOff
 	rs = append(rs, sealRegion{"footer", f + 4, f + 10, f, f + 4, f + 10})
 	return rs
+}
+
+// c04Judge reads one modified stream under one schedule of buffer lengths and applies the
+// oracle; it returns true when a violation was reported (further schedules are skipped).
+func c04Judge(c *ev.Ctx, s *xzSeed, kind string, arg, bi int, id, name string, mod []byte, schedName string, sched []int, first bool, edits []xzEdit) (violated bool) {
+	out, cerr, rerr, pn := openReadSched("xz", mod, 0, sched)
+	if first {
+		c.Eval(id, true)
+		c.Count("mod:"+classOf(name), 1)
+	}
+	c.Count("reads:"+schedName, 1)
+	viol := func(sig string, det map[string]any) {
+		violated = true
+		det["read_schedule"] = schedName
+		c.Violation(sig, det)
+	}
+	func() {
+		j := struct {
+			kind    string
+			arg, bi int
+		}{kind, arg, bi}
+		det := map[string]any{"case_id": id, "seed": s.ID, "seed_features": s.Feat, "modification": name, "arg": j.arg, "block": j.bi,
+			"original_hex": ev.Hex(s.B, 1600), "modified_hex": ev.Hex(mod, 1600), "ctor_error": fmt.Sprint(cerr), "read_error": fmt.Sprint(rerr), "delivered": len(out), "content_len": len(s.Content)}
+		if pn != nil {
+			det["what"] = "reader panicked on a damaged stream: " + pn.Value
+			viol("panic-on-damaged", det)
+			return
+		}
+		clean := cerr == nil && rerr == nil
+		if j.kind == "sealflip" {
+			// The flipped field is consistent with its CRC32 again, so only a cross-check against
+			// the rest of the stream can object.  If the strict reference still accepts the file
+			// with the same content the flip produced another valid file (e.g. a larger declared
+			// dictionary) and nothing is demanded; otherwise the metadata is inconsistent.
+			// (Integers in a longer than the shortest encoding are not among the inconsistencies the
+			// statement lists - the values stay the same - so the judge tolerates them.)
+			if ro, _, e := ref.DecodeXZLenient(mod, 0); e == nil && bytes.Equal(ro, s.Content) {
+				c.Count("sealflip_yields_valid_file", 1)
+				return
+			}
+			if clean {
+				det["what"] = fmt.Sprintf("%s: bit %d of byte %d flipped and the covering CRC32 re-sealed; the reference rejects the file, the reader reports a clean end after %d bytes (content %d bytes, equal=%v)", name, j.arg%8, j.arg/8, len(out), len(s.Content), bytes.Equal(out, s.Content))
+				viol("edit-accepted:"+name, det)
+			} else {
+				c.Count("sealflips_rejected", 1)
+			}
+			return
+		}
+		if j.kind == "edit" {
+			if clean {
+				det["what"] = fmt.Sprintf("metadata edit %q (block %d), CRC32s re-sealed, is not reported: clean end after %d bytes (content %d bytes, equal=%v)", name, j.bi, len(out), len(s.Content), bytes.Equal(out, s.Content))
+				viol("edit-accepted:"+edits[j.arg].Name, det)
+			} else {
+				c.Count("edits_rejected", 1)
+			}
+			return
+		}
+		if clean && !bytes.Equal(out, s.Content) && s.Multi {
+			// a multi-stream file from which whole streams (or whole 4-byte padding groups)
+			// were removed is itself a valid file: no format without a global check can
+			// notice that.  Exempt exactly when the strict reference accepts the file too.
+			if ro, _, rerr := ref.DecodeXZ(mod, 0); rerr == nil && bytes.Equal(ro, out) {
+				c.Count("multistream_modification_yields_valid_file", 1)
+				return
+			}
+		}
+		if clean && !bytes.Equal(out, s.Content) {
+			det["what"] = fmt.Sprintf("%s at %d: stream with check %d decodes cleanly to %d bytes differing from the original %d bytes (first difference %d)", j.kind, j.arg, s.Check, len(out), len(s.Content), firstDiff(out, s.Content))
+			viol("damaged-decodes-differently:"+j.kind, det)
+			return
+		}
+		if clean {
+			c.Count("damage_harmless_same_content", 1)
+			c.Count(fmt.Sprintf("harmless:%s:%s", j.kind, regionOf(s, j.kind, j.arg)), 1)
+			if os.Getenv("C04_DEBUG") != "" && j.kind == "flip" {
+				fmt.Printf("HARMLESS %s bit %d byte %d region %s\n", s.ID, j.arg, j.arg/8, regionOf(s, j.kind, j.arg))
+			}
+		} else {
+			c.Count("damage_detected", 1)
+		}
+	}()
+	return violated
 }
 
 func classOf(name string) string {
